@@ -46,7 +46,7 @@ class HarnessError(Exception):
 
 class Entry:
     __slots__ = ("seq", "sock", "owner", "site", "side", "kind", "chain", "closed_by", "closed_at",
-                 "born_at", "events", "reported", "role")
+                 "born_at", "events", "blocked", "reported", "role")
 
     def __init__(self, seq, sock):
         self.seq = seq
@@ -59,7 +59,8 @@ class Entry:
         self.closed_by = None         # hio chain (or ('<harness>',)) of the first close()/detach()
         self.closed_at = None
         self.born_at = None
-        self.events = []              # traffic tap: (clock, 'rx'|'tx', nbytes)
+        self.events = []              # traffic tap: (clock, 'rx'|'tx', nbytes), only calls that moved >= 1 byte
+        self.blocked = 0              # send() calls that moved nothing (would-block / SSL want): never traffic
         self.reported = False
         self.role = None              # free for the property module
 
@@ -223,6 +224,11 @@ class Ledger:
         if e is not None and e.owner == "hio":
             e.events.append((self.now(), direction, n))
 
+    def _blocked(self, sock):
+        e = self.by_id.get(id(sock))
+        if e is not None and e.owner == "hio":
+            e.blocked += 1
+
 
 # --------------------------------------------------------------------------
 # class-level wrappers (installed once per process)
@@ -269,7 +275,13 @@ def install():
         orig = getattr(cls, name)
 
         def method(self, *pa, **kwa):
-            ret = orig(self, *pa, **kwa)
+            try:
+                ret = orig(self, *pa, **kwa)
+            except BlockingIOError:
+                led = _state["ledger"]
+                if direction == "tx" and led is not None and led.active and led.tap:
+                    led._blocked(self)
+                raise
             led = _state["ledger"]
             if led is not None and led.active and led.tap:
                 n = ret if direction == "tx" else len(ret)
@@ -298,7 +310,13 @@ def install():
     def ssend(self, *pa, **kwa):
         if self._sslobj is None:
             return ssl_send(self, *pa, **kwa)
-        ret = ssl_send(self, *pa, **kwa)
+        try:
+            ret = ssl_send(self, *pa, **kwa)
+        except (ssl.SSLWantWriteError, ssl.SSLWantReadError):
+            led = _state["ledger"]
+            if led is not None and led.active and led.tap:
+                led._blocked(self)
+            raise
         led = _state["ledger"]
         if led is not None and led.active and led.tap and ret:
             led._traffic(self, "tx", ret)
